@@ -27,8 +27,8 @@ variable {ν : Type}
 /-- `parse_total`: the loop fuel `length + 1` supplied by `parseWith` never runs out — every
 iteration of the command loop consumes a character or returns.  (The model function itself is
 total by structural recursion; this says its "out of fuel" outcome is unreachable.) -/
-theorem parse_total (needStart0 : Bool) (N : Num ν) (na : Nat) (stop : Option Char)
-    (inp : List Char) : (parseWith needStart0 N na stop inp).outcome ≠ .stuck := by
+theorem parse_total (fix : Bool) (N : Num ν) (na : Nat) (stop : Option Char)
+    (inp : List Char) : (parseWith fix N na stop inp).outcome ≠ .stuck := by
   unfold parseWith
   apply loop_not_stuck
   · have := skipWs_len_le (Src.new inp)
@@ -42,7 +42,7 @@ the parser. -/
 theorem parse_no_panic_fixed (N : Num ν) (na : Nat) (stop : Option Char) (inp : List Char)
     (harc : ∀ pos a, N.arc pos a ≠ none) : (parseFixed N na stop inp).outcome ≠ .panic := by
   unfold parseFixed parseWith
-  apply loop_no_panic N na stop harc
+  apply loop_no_panic _ N na stop harc
   · simp [St.init]
   · simp [St.init]
   · right; intro h; simp [St.init] at h
@@ -52,7 +52,7 @@ before the first move-to indexes an empty `prev_attributes` (`parse_no_panic_wit
 theorem parse_no_panic_partial (N : Num ν) (stop : Option Char) (inp : List Char)
     (harc : ∀ pos a, N.arc pos a ≠ none) : (parse N 0 stop inp).outcome ≠ .panic := by
   unfold parse parseWith
-  apply loop_no_panic N 0 stop harc
+  apply loop_no_panic _ N 0 stop harc
   · simp [St.init]
   · simp [St.init]
   · left; rfl
@@ -71,6 +71,80 @@ theorem parse_result_shape (N : Num ν) (na : Nat) (stop : Option Char) (inp : L
   | panic => exact absurd h h2
   | stuck => exact absurd h h1
 
+/-! ### Error positions -/
+
+/-- `parse_result_shape` (position part): an error carries the `line`/`col` the source had after
+some number `n` of `advance_one` steps from `Source::new(input)` — i.e. the position of the
+`n`-th character (the offending token's first character, or the last character at end of input).
+`position_tracks` below says what these two numbers are. -/
+theorem parse_error_position (fix : Bool) (N : Num ν) (na : Nat) (stop : Option Char)
+    (inp : List Char) (e : Err) (h : (parseWith fix N na stop inp).outcome = .err e) :
+    ∃ n, e.line = (advN n (Src.new inp)).line ∧ e.col = (advN n (Src.new inp)).col := by
+  unfold parseWith at h
+  obtain ⟨t, ⟨n, rfl⟩, hl, hc⟩ :=
+    ErrAt.mono (skipWs_reach (Src.new inp)) ((loop_pos fix N na stop _ _ _).2 e h)
+  exact ⟨n, hl, hc⟩
+
+/-- `position_tracks`: after `n` steps (`n < length`) the source stands on character `n`;
+`line` = number of newlines among characters `0..n` (inclusive);
+`col` = `n` if no newline occurs at an index in `1..n`, and `t - 1` if the last newline at an
+index ≥ 1 is followed by `t` further characters up to `n` (so the newline itself has column -1 and
+the character after it column 0).  A newline at index 0 does NOT reset the column — the
+`leading-newline` finding. -/
+theorem position_tracks (inp : List Char) (n : Nat) (hn : n < inp.length) :
+    (advN n (Src.new inp)).inp = inp.drop n ∧
+    (advN n (Src.new inp)).line = nlCount (inp.take (n + 1)) ∧
+    ((∀ c ∈ inp.tail.take n, c ≠ '\n') → (advN n (Src.new inp)).col = n) ∧
+    (∀ j t, j + 1 + t = n → (inp.drop (j + 1)).head? = some '\n' →
+      (∀ c ∈ (inp.drop (j + 2)).take t, c ≠ '\n') →
+      (advN n (Src.new inp)).col = (t : Int) - 1) := by
+  have hlen : n < (Src.new inp).inp.length := hn
+  refine ⟨by simp [advN_inp, Src.new], ?_, ?_, ?_⟩
+  · rw [advN_line n _ hlen]
+    simp only [Src.new, nextLine_eq, nlCount_take_succ inp n]
+    omega
+  · intro h
+    rw [advN_col_plain n _ hlen h]; simp [Src.new]
+  · intro j t hjt hnl hrest
+    subst hjt
+    rw [advN_add]
+    have hj : j < inp.length := by omega
+    have hdj : (advN j (Src.new inp)).inp = inp.drop j := by simp [advN_inp, Src.new]
+    have hj1 : j + 1 < inp.length := by omega
+    have e1 : inp.drop j = inp[j] :: inp.drop (j + 1) := List.drop_eq_getElem_cons hj
+    have e2 : inp.drop (j + 1) = '\n' :: inp.drop (j + 2) := by
+      have := List.drop_eq_getElem_cons hj1
+      rw [this] at hnl ⊢
+      simp only [List.head?_cons, Option.some.injEq] at hnl
+      rw [hnl]
+    have hs1 : (advN (j + 1) (Src.new inp)) = (advN j (Src.new inp)).adv := by
+      rw [advN_add j 1]; rfl
+    have hcol : (advN (j + 1) (Src.new inp)).col = -1 := by
+      rw [hs1]; exact adv_col_newline _ inp[j] (inp.drop (j + 2)) (by rw [hdj, e1, e2])
+    have hinp : (advN (j + 1) (Src.new inp)).inp = '\n' :: inp.drop (j + 2) := by
+      rw [advN_inp]; simpa [Src.new] using e2
+    have hlt : t < (advN (j + 1) (Src.new inp)).inp.length := by
+      rw [hinp]; simp; omega
+    rw [advN_col_plain t _ hlt (by rw [hinp]; exact hrest), hcol]; omega
+
+/-- once the input is exhausted the position no longer changes: errors at end of input carry
+the position of the last character -/
+theorem position_at_end (s : Src) (k : Nat) (h : s.inp.length ≤ 1) :
+    (advN k s).line = s.line ∧ (advN k s).col = s.col := by
+  induction k generalizing s with
+  | zero => exact ⟨rfl, rfl⟩
+  | succ k ih =>
+    have hadv : s.adv.line = s.line ∧ s.adv.col = s.col ∧ s.adv.inp.length ≤ 1 := by
+      unfold Src.adv
+      cases hs : s.inp with
+      | nil => simp [hs]
+      | cons c r =>
+        cases r with
+        | nil => simp [nextLine, nextCol]
+        | cons d t => simp [hs] at h
+    obtain ⟨h1, h2⟩ := ih s.adv hadv.2.2
+    simp only [advN]; rw [h1, h2]; exact ⟨hadv.1, hadv.2.1⟩
+
 /-! ### Protocol safety -/
 
 /-- `parse_trace_wellnested` for the FIXED parser: for every input string — success or error —
@@ -79,7 +153,7 @@ theorem parse_trace_wellnested_fixed (N : Num ν) (na : Nat) (stop : Option Char
     (inp : List Char) (hc : (parseFixed N na stop inp).closed) :
     WellNested (parseFixed N na stop inp).trace := by
   unfold parseFixed parseWith at hc ⊢
-  obtain ⟨b, hb, hcl⟩ := loop_nest N na stop (inp.length + 1) (St.init N true)
+  obtain ⟨b, hb, hcl⟩ := loop_nest _ N na stop (inp.length + 1) (St.init N true)
     (Src.new inp).skipWs (Or.inr rfl) (by simp [St.init]) (by simp [St.init])
   rw [hcl hc] at hb
   exact (wellNestedFrom_iff_nestState _ _).2 hb
@@ -89,7 +163,7 @@ place. -/
 theorem parse_trace_prefix_safe_fixed (N : Num ν) (na : Nat) (stop : Option Char)
     (inp : List Char) : ∃ b, nestState false (parseFixed N na stop inp).trace = some b := by
   unfold parseFixed parseWith
-  obtain ⟨b, hb, _⟩ := loop_nest N na stop (inp.length + 1) (St.init N true)
+  obtain ⟨b, hb, _⟩ := loop_nest _ N na stop (inp.length + 1) (St.init N true)
     (Src.new inp).skipWs (Or.inr rfl) (by simp [St.init]) (by simp [St.init])
   exact ⟨b, hb⟩
 
@@ -102,10 +176,75 @@ theorem parse_trace_wellnested_partial (N : Num ν) (na : Nat) (stop : Option Ch
     (hstart : startsOk (parse N na stop inp).trace) :
     WellNested (parse N na stop inp).trace := by
   unfold parse parseWith at hc hstart ⊢
-  obtain ⟨b, hb, hcl⟩ := loop_nest_start N na stop (inp.length + 1) (St.init N false)
+  obtain ⟨b, hb, hcl⟩ := loop_nest_start _ N na stop (inp.length + 1) (St.init N false)
     (Src.new inp).skipWs rfl (by simp [St.init]) (by simp [St.init]) hstart
   rw [hcl hc] at hb
   exact (wellNestedFrom_iff_nestState _ _).2 hb
+
+/-! ### Path data must start with a move-to -/
+
+/-- `missing_move_to` for the FIXED parser: if the first character that is not a separator is an
+ASCII letter other than `m`/`M` (and not the stop character), the input is rejected — with
+`MissingMoveTo` for a drawing/close command, `Command` for an unknown letter — and the builder
+has not been called at all. -/
+theorem missing_move_to_fixed (N : Num ν) (na : Nat) (stop : Option Char) (inp : List Char)
+    (hne : (Src.new inp).skipWs.inp ≠ [])
+    (hstop : stop ≠ some (Src.new inp).skipWs.cur)
+    (halpha : (Src.new inp).skipWs.cur.isAlpha = true)
+    (hm : (Src.new inp).skipWs.cur ≠ 'm') (hM : (Src.new inp).skipWs.cur ≠ 'M') :
+    (parseFixed N na stop inp).trace = [] ∧
+    ((parseFixed N na stop inp).outcome =
+        .err (.missingMoveTo (Src.new inp).skipWs.cur (Src.new inp).skipWs.line
+          (Src.new inp).skipWs.col) ∨
+     (parseFixed N na stop inp).outcome =
+        .err (.command (Src.new inp).skipWs.cur (Src.new inp).skipWs.line
+          (Src.new inp).skipWs.col)) := by
+  generalize hs : (Src.new inp).skipWs = s at *
+  unfold parseFixed parseWith
+  rw [hs, loop_succ]
+  have hf : s.fin = false := by
+    cases h : s.inp with
+    | nil => exact absurd h hne
+    | cons a r => simp [Src.fin, h]
+  have hst : (stop == some s.cur) = false := by
+    cases h : (stop == some s.cur)
+    · rfl
+    · exact absurd (by simpa using h) hstop
+  simp only [hf, hst, Bool.false_eq_true, if_false]
+  have hcmd : cmdOf (St.init N true) s = s.cur := by simp [cmdOf, halpha]
+  unfold step
+  rw [hcmd]
+  by_cases hd : isDrawingCmd s.cur = true
+  · simp [St.init, needStartBlocks, hd, Result.trace, closing]
+  · have hblk : needStartBlocks true s.cur = false := by simp [needStartBlocks, hd]
+    simp only [hblk, Bool.and_false, Bool.false_eq_true, if_false]
+    unfold dispatchCmd
+    have hnone : edgeCmd N na s.cur (St.init N true) = none := by
+      cases he : edgeCmd N na s.cur (St.init N true) with
+      | none => rfl
+      | some m => exact absurd (edgeCmd_drawing N na _ _ m he) hd
+    have ha : (s.cur == 'a' || s.cur == 'A') = false := by
+      cases h : (s.cur == 'a' || s.cur == 'A')
+      · rfl
+      · exfalso; apply hd
+        rcases (by simpa using h : s.cur = 'a' ∨ s.cur = 'A') with h' | h' <;> (rw [h']; decide)
+    have hz : (s.cur == 'z' || s.cur == 'Z') = false := by
+      cases h : (s.cur == 'z' || s.cur == 'Z')
+      · rfl
+      · exfalso; apply hd
+        rcases (by simpa using h : s.cur = 'z' ∨ s.cur = 'Z') with h' | h' <;> (rw [h']; decide)
+    have hmm : (s.cur == 'm' || s.cur == 'M') = false := by simp [hm, hM]
+    rw [hnone]
+    simp [ha, hz, hmm, St.init, Result.trace, closing]
+
+/-- `missing_move_to`, CURRENT code, PARTIAL: once a sub-path has been closed (`need_start`
+set by `Z`), anything but a move-to is rejected with `MissingMoveTo` at the command's position.
+What is missing: the same at the start of the input (`missing_move_to_witness`). -/
+theorem missing_move_to_partial (N : Num ν) (na : Nat) (st : St ν) (s : Src)
+    (hns : st.needStart = true) (hm : cmdOf st s ≠ 'm') (hM : cmdOf st s ≠ 'M') :
+    step false N na st s =
+      .fail (.missingMoveTo (cmdOf st s) s.line s.col) st.needEnd (afterCmd s) [] := by
+  simp [step, needStartBlocks, hns, hm, hM]
 
 /-! ### Witnesses on the model (current code) -/
 
@@ -137,5 +276,23 @@ theorem missing_move_to_witness :
 theorem parse_no_panic_witness :
     (parse unitNum 1 none "A1 1 0 0 0 5 5 7".toList).outcome = .panic := by
   decide
+
+/-- non-vacuity of `missing_move_to_fixed`: `" L 1 1"` satisfies its hypotheses -/
+example : (Src.new [' ', 'L', ' ', '1', ' ', '1']).skipWs.inp ≠ [] ∧
+    (Src.new [' ', 'L', ' ', '1', ' ', '1']).skipWs.cur.isAlpha = true ∧
+    (Src.new [' ', 'L', ' ', '1', ' ', '1']).skipWs.cur ≠ 'm' := by decide
+
+/-- non-vacuity of the `closed` / `startsOk` hypotheses: `"M 0 0 L 1 1 Z"` -/
+example : (parse unitNum 0 none "M 0 0 L 1 1 Z".toList).closed ∧
+    startsOk (parse unitNum 0 none "M 0 0 L 1 1 Z".toList).trace ∧
+    (parse unitNum 0 none "M 0 0 L 1 1 Z".toList).trace =
+      [.begin ((), ()) [], .line ((), ()) [], .end_ true] := by
+  refine ⟨Or.inl (by decide), ?_, by decide⟩
+  have : (parse unitNum 0 none "M 0 0 L 1 1 Z".toList).trace =
+      [.begin ((), ()) [], .line ((), ()) [], .end_ true] := by decide
+  rw [this]; trivial
+
+/-- the arc hypothesis of the no-panic theorems holds for `unitNum` -/
+example : ∀ pos a, unitNum.arc pos a ≠ none := by intro pos a; simp [unitNum]
 
 end Lyon.C17
